@@ -16,7 +16,7 @@ MOD = 'sim.scen_c15'
 RETYPE_VALUES = [None, True, 0, -1, 7, 10 ** 6, 1.5, '', 'x', [], {}, [1],
                  {'a': 1}, 'l1\nl2 <br>\n"q\'&amp;',
                  'C:\\dir \\emph{x} \\1 \\g<0> %s {0} $&',
-                 float('inf'), float('nan')]
+                 float('inf'), float('nan'), '5', False, [[]], -0.0]
 
 GARBAGE = [
     b'', b' \n\t ', b'null', b'[]', b'42', b'"matches"', b'{}',
@@ -400,6 +400,11 @@ def run(seed, tier, budget_s):
             # seeded share of the byte truncations
             trunc = [f for f in faults if f['kind'] == 'truncate']
             chosen = [f for f in faults if f['kind'] != 'truncate']
+            if b['peer'].get('ensure_ascii') and b['names'] == ['fix.tex']:
+                # the \uXXXX twins of the fixed bases exist for the byte
+                # truncations; field faults are covered by their raw twins
+                chosen = [f for f in chosen if f['kind'] in ('garbage',
+                                                             'delete_field')]
             if b.get('_derived'):
                 # other transport / server variants of a base: a seeded third
                 # of the plain retypings, everything else in full
